@@ -16,6 +16,7 @@ import (
 	"os"
 	"os/exec"
 	"runtime"
+	"sort"
 	"strings"
 	"time"
 
@@ -208,6 +209,83 @@ func (c *Ctx) mutate(base []byte) []byte {
 	return b
 }
 
+// reshapeJSON keeps the body valid JSON but gives it the wrong shape: one to three nodes of the parsed value (an array element, a field
+// value, or the whole document) are replaced by another JSON value (null, a number, a string, a boolean, an array, an object), a field is
+// dropped, or a null / scalar element is inserted into an array. Byte-level mutation almost never produces these.
+func (c *Ctx) reshapeJSON(base []byte) []byte {
+	var doc any
+	if json.Unmarshal(base, &doc) != nil {
+		return base
+	}
+	pool := func() any {
+		switch c.Rng.IntN(9) {
+		case 0, 1:
+			return nil
+		case 2:
+			return float64(c.Rng.IntN(7)) - 3
+		case 3:
+			return "x"
+		case 4:
+			return true
+		case 5:
+			return []any{}
+		case 6:
+			return []any{nil, 1.5}
+		case 7:
+			return map[string]any{}
+		default:
+			return map[string]any{"date": nil, "close": "1", "name": 3, "v": []any{}}
+		}
+	}
+	var edit func(v any, depth int) any
+	edit = func(v any, depth int) any {
+		switch t := v.(type) {
+		case []any:
+			if len(t) == 0 || c.Rng.IntN(4) == 0 {
+				i := c.Rng.IntN(len(t) + 1)
+				return append(append(append([]any{}, t[:i]...), pool()), t[i:]...)
+			}
+			i := c.Rng.IntN(len(t))
+			if depth < 3 && c.Rng.IntN(2) == 0 {
+				t[i] = edit(t[i], depth+1)
+			} else {
+				t[i] = pool()
+			}
+			return t
+		case map[string]any:
+			keys := make([]string, 0, len(t))
+			for k := range t {
+				keys = append(keys, k)
+			}
+			sort.Strings(keys)
+			if len(keys) == 0 {
+				return pool()
+			}
+			k := keys[c.Rng.IntN(len(keys))]
+			if c.Rng.IntN(5) == 0 {
+				delete(t, k)
+			} else {
+				t[k] = pool()
+			}
+			return t
+		default:
+			return pool()
+		}
+	}
+	for k := 0; k < 1+c.Rng.IntN(3); k++ {
+		if c.Rng.IntN(12) == 0 {
+			doc = pool()
+		} else {
+			doc = edit(doc, 0)
+		}
+	}
+	out, err := json.Marshal(doc)
+	if err != nil {
+		return base
+	}
+	return out
+}
+
 func (c *Ctx) c19Csv(shape string, header bool, data []byte) {
 	job := c19Job{Kind: "csv-" + shape, Header: header, Data: data}
 	res, panicked, raw := runChild(job)
@@ -386,6 +464,11 @@ func runC19(c *Ctx) error {
 		}
 		c.c19Json("json-int", d)
 		c.c19Json("json-rec", c.mutate(validRecs))
+		if i%2 == 0 { // valid JSON of the wrong shape
+			c.Count("shape/json-reshaped")
+			c.c19Json("json-int", c.reshapeJSON(validInts))
+			c.c19Json("json-rec", c.reshapeJSON(validRecs))
+		}
 	}
 	validTiingo := []byte(`[{"date":"2020-01-02T00:00:00.000Z","close":300.35,"high":300.6,"low":295.19,"open":296.24,"volume":33911864,"adjClose":297.43,"adjHigh":297.68,"adjLow":292.32,"adjOpen":293.36,"adjVolume":135647456,"divCash":0.0,"splitFactor":1.0},{"date":"2020-01-03T00:00:00.000Z","close":297.43,"high":300.58,"low":296.5,"open":297.15,"volume":36633878,"adjClose":294.54,"adjHigh":297.66,"adjLow":293.62,"adjOpen":294.26,"adjVolume":146535512,"divCash":0.0,"splitFactor":1.0}]`)
 	statuses := []int{200, 200, 200, 204, 301, 400, 401, 404, 429, 500, 503}
@@ -399,6 +482,10 @@ func runC19(c *Ctx) error {
 			body = []byte([]string{"", "{}", "{\"detail\":\"Not found.\"}", "[", "[{\"date\":", "null", "[{\"date\":\"2020-01-02T00:00:00.000Z\"}", "[{\"date\":\"2020-01-02T00:00:00.000Z\"},"}[c.Rng.IntN(8)])
 		}
 		c.c19Tiingo(st, body)
+		if i%2 == 0 { // a 200 response that is valid JSON of the wrong shape (null / scalar / nested elements, missing or mistyped fields)
+			c.Count("shape/tiingo-reshaped")
+			c.c19Tiingo(200, c.reshapeJSON(validTiingo))
+		}
 	}
 	// an unreadable file must surface as an error
 	res, panicked, _ := runChild(c19Job{Kind: "file", Data: []byte("/nonexistent/verif/file.csv")})
